@@ -23,8 +23,18 @@ from typing import Any, Callable
 _TYPE_BUILTINS = {"list": list, "tuple": tuple, "int": int, "float": float, "bool": bool, "str": str, "dict": dict, "set": set, "frozenset": frozenset}
 
 
+_PURE_BUILTINS = {"dict": dict, "enumerate": lambda *a, **k: tuple(enumerate(*a, **k)), "range": lambda *a: tuple(range(*a)), "zip": lambda *a, **k: tuple(zip(*a, **k)), "sum": sum, "reversed": lambda x: tuple(reversed(x)), "str": str, "frozenset": frozenset}
+_PURE_METHODS = {"get", "items", "values", "keys", "index", "count", "copy"}
+
+
 class Unsupported(Exception):
     pass
+
+
+class Returned(Exception):
+    def __init__(self, value: Any) -> None:
+        super().__init__("return")
+        self.value = value
 
 
 class Raised(Exception):
@@ -93,6 +103,8 @@ class Interp:
             idx = self.ev(e.slice)
             try:
                 return base[idx]
+            except (KeyError, IndexError) as ex:  # concrete container, concrete key: Python itself raises here
+                raise Raised(type(ex).__name__, e) from ex
             except Exception as ex:
                 raise Unsupported(f"subscript {ast.unparse(e)}") from ex
         if isinstance(e, ast.UnaryOp):
@@ -152,7 +164,51 @@ class Interp:
             return "<fstring>"
         if isinstance(e, ast.Dict):
             return {self.ev(k): self.ev(v) for k, v in zip(e.keys, e.values)}
+        if isinstance(e, (ast.GeneratorExp, ast.ListComp, ast.SetComp, ast.DictComp)):
+            return self.comprehension(e)
+        if isinstance(e, ast.Lambda):
+            return self.closure(e)
         raise Unsupported(f"expression {type(e).__name__}")
+
+    def comprehension(self, e: ast.AST) -> Any:
+        """Eager evaluation over concrete iterables (a generator expression yields a tuple: the callers here are tuple(),
+        all(), dict(), ... which consume it at once)."""
+        out: list = []
+        saved = dict(self.env)
+
+        def rec(i: int) -> None:
+            if i == len(e.generators):
+                if isinstance(e, ast.DictComp):
+                    out.append((self.ev(e.key), self.ev(e.value)))
+                else:
+                    out.append(self.ev(e.elt))
+                return
+            g = e.generators[i]
+            for x in self.ev(g.iter):
+                self.assign(g.target, x)
+                if all(self.ev(c) for c in g.ifs):
+                    rec(i + 1)
+
+        try:
+            rec(0)
+        finally:
+            self.env.clear()
+            self.env.update(saved)
+        if isinstance(e, ast.DictComp):
+            return dict(out)
+        if isinstance(e, ast.SetComp):
+            return set(out)
+        return out if isinstance(e, ast.ListComp) else tuple(out)
+
+    def closure(self, lam: ast.Lambda):
+        params = [a.arg for a in lam.args.args]
+        outer = self
+
+        def fn(*args):
+            sub = Interp({**outer.env, **dict(zip(params, args))}, resolve_name=outer.resolve_name, call_hook=outer.call_hook)
+            return sub.ev(lam.body)
+
+        return fn
 
     def call(self, e: ast.Call) -> Any:
         f = e.func
@@ -186,6 +242,17 @@ class Interp:
             r = self.call_hook(self, e)
             if r is not _MISSING:
                 return r
+        if isinstance(f, ast.Name) and f.id in _PURE_BUILTINS and f.id not in self.env:
+            return _PURE_BUILTINS[f.id](*[self.ev(a) for a in e.args], **{k.arg: self.ev(k.value) for k in e.keywords})
+        if isinstance(f, ast.Name) and callable(self.env.get(f.id)):  # a callable handed in by the case (e.g. a default rule)
+            return self.env[f.id](*[self.ev(a) for a in e.args], **{k.arg: self.ev(k.value) for k in e.keywords})
+        if isinstance(f, ast.Attribute) and f.attr in _PURE_METHODS:
+            base = self.ev(f.value)
+            if isinstance(base, (dict, list, tuple, set, frozenset, str)):
+                try:
+                    return getattr(base, f.attr)(*[self.ev(a) for a in e.args], **{k.arg: self.ev(k.value) for k in e.keywords})
+                except (KeyError, IndexError, TypeError, ValueError) as ex:
+                    raise Raised(type(ex).__name__, e) from ex
         raise Unsupported(f"call {ast.unparse(e.func)}")
 
     # ---------------------------------------------------------------- statements
@@ -233,6 +300,8 @@ class Interp:
             self.assign(st.target, fn(self.ev(st.target), self.ev(st.value)))
         elif isinstance(st, ast.Pass):
             return
+        elif isinstance(st, ast.Return):
+            raise Returned(self.ev(st.value) if st.value is not None else None)
         elif isinstance(st, ast.Assert):
             if not self.ev(st.test):
                 raise Raised("AssertionError", st)
